@@ -133,7 +133,8 @@ Section Machine.
   Proof.
     intros s k args pid I i o H. unfold mk_oper in H.
     assert (G : forall o0, o0 = {| o_kind := k; o_args := args; o_pid := pid; o_created := own_reads T s k pid Create;
-                                   o_cached := None; o_snapshot := None; o_cparams := param_obj s pid |} -> good o0).
+                                   o_cached := None; o_snapshot := None; o_cparams := param_obj s pid;
+                                   o_gsnapshot := None; o_gcparams := param_obj s O |} -> good o0).
     { intros o0 ->. intros F A. cbn [o_kind o_created o_cparams o_cached]. split; [|discriminate].
       unfold created_desc. now apply own_reads_own. }
     destruct k; try (cbn [s_ops] in H; apply nth_error_snoc in H; destruct H as [H|H]; [now apply (I i)|now apply G]).
@@ -153,7 +154,8 @@ Section Machine.
     assert (New : is_fmm (o_kind oj) = false ->
               good {| o_kind := o_kind oj; o_args := o_args oj; o_pid := o_pid oj; o_created := o_created oj;
                       o_cached := Some (o_created oj ++ own_reads T s (o_kind oj) (o_pid oj) Assemble);
-                      o_snapshot := Some (param_obj s (o_pid oj)); o_cparams := o_cparams oj |} ).
+                      o_snapshot := Some (param_obj s (o_pid oj)); o_cparams := o_cparams oj;
+                      o_gsnapshot := Some (param_obj s O); o_gcparams := o_gcparams oj |} ).
     { intros NF F A. cbn [o_kind o_created o_cparams o_cached o_snapshot] in *. destruct (Gj F A) as [Cr _].
       split; [assumption|]. intros d Hd. injection Hd as <-. eexists. split; [reflexivity|].
       rewrite Cr. f_equal. unfold assemble_desc. now apply own_reads_own. }
